@@ -432,12 +432,13 @@ func derivedFlags(p *Program) map[string]*term {
 					hasMask = true
 				}
 			}
-			if !hasMask {
+			// ... or of the query session, decided once when the session is created
+			if !hasMask && !isSessionType(fa.X.Type()) {
 				return
 			}
 			count[fv.Name()]++
 			t := e.eval(st.Val)
-			if t.op == "cmp" {
+			if t.op == "cmp" && (hasMask || strings.Contains(t.String(), "Slim.")) {
 				m[fv.Name()] = t
 			}
 		})
